@@ -243,6 +243,12 @@ package rapid
 //@ event SpawnKill = go rapid.(*shutdownContext).shutdownAgents$2
 //@ event ExternalAgentsListed = ret core.(RegistrationService).GetExternalAgents
 //@ event OwnWaitContext = call context.WithCancel
+// the wait group that makes shutdownAgents return only after every goroutine it started has finished: one Add(1) before
+// every start, exactly one Done per goroutine (deferred first, so it is its last action), one Wait after the last start
+//@ event WgAdd = call sync.(*WaitGroup).Add
+//@ event WgAddOne = call sync.(*WaitGroup).Add when a1 == 1
+//@ event WgDone = call sync.(*WaitGroup).Done
+//@ event WgWait = call sync.(*WaitGroup).Wait
 
 // runtime: SIGTERM first, SIGKILL only from the deadline branch, both addressed to the process that was looked up
 //@ func (*shutdownContext).shutdownRuntime
@@ -256,18 +262,22 @@ package rapid
 //@   requires execCtx != nil && agent != nil
 //@   ensures [one-event-then-maybe-kill] delta(ReleaseExt) == 1 && lastarg(ReleaseExt, 0) == agent && delta(KillAny) <= 1 && (delta(KillAny) == 1 ==> first(ReleaseExt) < first(KillAny) && lastarg(KillAny, 2).Name == name && lastarg(KillAny, 2).Domain == RuntimeDomain) && delta(Terminate) == 0
 //@   ensures [waits-on-a-context-of-its-own] delta(OwnWaitContext) == 1 && first(ReleaseExt) < first(OwnWaitContext)
+//@   ensures [reports-its-end-once-and-last] delta(WgDone) == 1 && delta(WgAdd) == 0 && delta(WgWait) == 0 && last(ReleaseExt) < first(WgDone) && (delta(KillAny) == 1 ==> last(KillAny) < first(WgDone))
 
 // an extension not subscribed to SHUTDOWN: killed, no event
 //@ func (*shutdownContext).shutdownAgents$2
 //@   requires execCtx != nil
 //@   ensures [kill-without-event] delta(KillAny) == 1 && lastarg(KillAny, 2).Name == name && lastarg(KillAny, 2).Domain == RuntimeDomain && delta(ReleaseExt) == 0 && delta(Terminate) == 0
+//@   ensures [reports-its-end-once-and-last] delta(WgDone) == 1 && delta(WgAdd) == 0 && delta(WgWait) == 0 && last(KillAny) < first(WgDone)
 
 //@ func (*shutdownContext).shutdownAgents
 //@   requires execCtx != nil && s != nil
 //@   ensures [shutdown-event-installed-first] delta(RendererSet) == 1 && delta(ExternalAgentsListed) == 1 && first(RendererSet) < first(ExternalAgentsListed) && typeis(lastarg(RendererSet, 1), *rendering.ShutdownRenderer) && lastarg(RendererSet, 1).(*rendering.ShutdownRenderer).AgentEvent.ShutdownReason == reason && lastarg(RendererSet, 1).(*rendering.ShutdownRenderer).AgentEvent.AgentEvent.EventType == "SHUTDOWN"
 //@   ensures [one-goroutine-per-launched-extension] delta(ExitedLookup) == len(lastret(ExternalAgentsListed)) && delta(SpawnGraceful) + delta(SpawnKill) == delta(ExitedLookupFound) && delta(SpawnGraceful) == delta(SubscribedToShutdown) && delta(SpawnKill) == delta(NotSubscribedToShutdown) && delta(ShutdownSubscriptionAsked) == delta(ExitedLookupFound) && delta(SubscribedToShutdown) + delta(NotSubscribedToShutdown) == delta(ExitedLookupFound)
 //@   ensures [no-direct-kill] delta(KillAny) == 0 && delta(Terminate) == 0 && delta(ReleaseExt) == 0
+//@   ensures [waits-for-every-goroutine-it-started] delta(WgAdd) == delta(SpawnGraceful) + delta(SpawnKill) && delta(WgAddOne) == delta(WgAdd) && delta(WgDone) == 0 && delta(WgWait) == 1 && (delta(WgAdd) >= 1 ==> last(WgAdd) < first(WgWait)) && (delta(SpawnGraceful) >= 1 ==> last(SpawnGraceful) < first(WgWait)) && (delta(SpawnKill) >= 1 ==> last(SpawnKill) < first(WgWait))
 //@   loop range execCtx.registrationService.GetExternalAgents(): invariant [one-goroutine-per-launched-extension] 0 <= rangeindex + 1 && rangeindex + 1 <= len(lastret(ExternalAgentsListed)) && delta(ExternalAgentsListed) == 1 && delta(ExitedLookup) == rangeindex + 1 && delta(SpawnGraceful) + delta(SpawnKill) == delta(ExitedLookupFound) && delta(SpawnGraceful) == delta(SubscribedToShutdown) && delta(SpawnKill) == delta(NotSubscribedToShutdown) && delta(ShutdownSubscriptionAsked) == delta(ExitedLookupFound) && delta(SubscribedToShutdown) + delta(NotSubscribedToShutdown) == delta(ExitedLookupFound) && delta(KillAny) == 0 && delta(Terminate) == 0 && delta(ReleaseExt) == 0 && delta(RendererSet) == 1 && first(RendererSet) < first(ExternalAgentsListed)
+//@   loop range execCtx.registrationService.GetExternalAgents(): invariant [one-add-per-start-no-wait-yet] delta(WgAdd) == delta(SpawnGraceful) + delta(SpawnKill) && delta(WgAddOne) == delta(WgAdd) && delta(WgDone) == 0 && delta(WgWait) == 0 && last(WgAdd) <= now() && last(SpawnGraceful) <= now() && last(SpawnKill) <= now()
 
 //@ func (*shutdownContext).shutdown
 //@   requires execCtx != nil && s != nil
